@@ -40,6 +40,10 @@ type Call struct {
 	Go       bool        // the call of a go statement
 	Loc      Loc
 	Inlined  *Call // non-nil: this call is made by a novel helper; Inlined is the helper call in the unit, Loc its location
+	// Subst maps the parameters of the transparent helper that makes this call to
+	// the arguments the caller passed: Arg and Recv-based rules see the caller's
+	// expression where the helper merely forwards a parameter.
+	Subst map[types.Object]ast.Expr
 }
 
 func (c *Call) Pos() token.Pos { return c.Expr.Pos() }
@@ -47,7 +51,17 @@ func (c *Call) Pos() token.Pos { return c.Expr.Pos() }
 // Arg returns the i-th argument or nil.
 func (c *Call) Arg(i int) ast.Expr {
 	if i < len(c.Expr.Args) {
-		return c.Expr.Args[i]
+		a := c.Expr.Args[i]
+		if c.Subst != nil {
+			if id, ok := ast.Unparen(a).(*ast.Ident); ok {
+				if o := c.U.Info().Uses[id]; o != nil {
+					if e, mapped := c.Subst[o]; mapped {
+						return e
+					}
+				}
+			}
+		}
+		return a
 	}
 	return nil
 }
